@@ -1,4 +1,4 @@
-import IcyVerif.Lemmas.BinFormatsCells
+import IcyVerif.Lemmas.BinFormatsSauce
 set_option linter.unusedSimpArgs false
 set_option linter.unusedVariables false
 /-!
@@ -7,28 +7,6 @@ set_option linter.unusedVariables false
 namespace IcyVerif.BinFormats
 open IcyVerif.XbCompress IcyVerif.Gen
 
-theorem dims_bin (w t1 t2 : Nat) (ice : Bool) (hw : w % 2 = 0) (hw2 : w ≤ 510) :
-    sauceDims (BinFmt.sauceDtBinaryText % 256) ((w / 2) % 256) t1 t2 (if ice then BinFmt.sauceFlagNonBlink else 0) =
-      (w, BinFmt.sauceDefaultH, ice) := by
-  unfold sauceDims
-  have h1 : BinFmt.sauceDtBinaryText % 256 = BinFmt.sauceDtBinaryText := by decide
-  have h2 : (w / 2) % 256 * 2 % 65536 = w := by omega
-  have h3 : ((if ice then BinFmt.sauceFlagNonBlink else 0) &&& BinFmt.sauceFlagNonBlink == BinFmt.sauceFlagNonBlink) = ice := by
-    cases ice <;> decide
-  simp only [h1, if_true, h2, h3]
-
-/-- the start buffer of the BIN loader after `set_sauce` with the record the writer stored -/
-theorem bin_start (w : Nat) (ice : Bool) (hw1 : 1 ≤ w) (hw2 : w ≤ 1000) :
-    (LBuf.start BinFmt.binStartW BinFmt.binStartH (BinFmt.binClearsRows == 1)).setSauce (some ⟨w, BinFmt.sauceDefaultH, ice, 129⟩) =
-      { bw := w, bh := 25, lw := w, lh := 25, lines := [], ice := if ice then .ice else .unlimited, pal := dosPalette,
-        fonts := [(0, defaultFont)] } := by
-  unfold LBuf.setSauce LBuf.start
-  have hc : (BinFmt.binClearsRows == 1) = true := by decide
-  have hm : BinFmt.sauceMaxWidth = 1000 := rfl
-  have hcond : ¬ (w = 0 ∨ w > BinFmt.sauceMaxWidth) := by rw [hm]; omega
-  simp only [hc, if_true, hcond, if_false]
-  rfl
-
 theorem rows_nonempty (p : Pic) (hwf : wellFormed p = true) : p.rows ≠ [] ∧ p.rows.length = p.h ∧ (∀ r ∈ p.rows, r.length = p.w) := by
   unfold wellFormed at hwf
   simp only [Bool.and_eq_true, beq_iff_eq, List.all_eq_true, decide_eq_true_eq] at hwf
@@ -36,39 +14,18 @@ theorem rows_nonempty (p : Pic) (hwf : wellFormed p = true) : p.rows ≠ [] ∧ 
   refine ⟨?_, h1, h2⟩
   intro he; rw [he] at h1; simp at h1; omega
 
-theorem bin_roundtrip (o : Opts) (date : List Nat) (p : Pic) (hrep : Representable .bin o p = true) (hdate : dateOk date = true) :
-    ∃ bytes g, save .bin o date p = .ok bytes ∧ fromBytes .bin bytes = .ok g ∧ SamePicture .bin p g := by
-  unfold Representable at hrep
-  simp only [Bool.and_eq_true, beq_iff_eq, decide_eq_true_eq] at hrep
-  obtain ⟨hwf, ⟨⟨⟨⟨⟨⟨⟨hev, hw2⟩, hw510⟩, hs⟩, hcells⟩, hpal⟩, hpages⟩, hfont⟩⟩ := hrep
+/-- the buffer the BIN loader produces for a representable picture saved with the record `s` -/
+def binLoaded (p : Pic) (s : Sauce.Sauce) : LBuf :=
+  { bw := p.w, bh := (p.h : Int), lw := p.w, lh := (p.h : Int), lines := (p.rows.map fun r => r.map shownCell).map (partRow p.w),
+    ice := if s.ice then .ice else .unlimited, pal := dosPalette, fonts := startFonts s, sauce := some (metaOf s) }
+
+/-- the BIN loader on the cell bytes the writer produced, with a record that says the picture's width and mode -/
+theorem bin_load (p : Pic) (s : Sauce.Sauce) (hwf : wellFormed p = true) (hw1 : 1 ≤ p.w) (hw2 : p.w ≤ 1000)
+    (hsw : s.width = p.w) (hsi : s.ice = (p.ice == .ice))
+    (hcells : allCells p (attrCell (p.ice == .ice)) = true) (hpages : analyzeFontUsage p.rows.flatten = [0]) :
+    binLoad (p.rows.flatMap fun row => row.flatMap fun c => [c.ch % 256, asU8' p.ice c.attr]) (some s) = .ok (binLoaded p s) := by
   obtain ⟨hne, hrows, hwid⟩ := rows_nonempty p hwf
-  obtain ⟨f0, hf0⟩ := Option.isSome_iff_exists.mp hfont
-  have hd8 := dateOk_length date hdate
-  -- the file
   let body := p.rows.flatMap fun row => row.flatMap fun c => [c.ch % 256, asU8' p.ice c.attr]
-  let info := infoStr f0.name
-  let fl := if (p.ice == IceMode.ice) then BinFmt.sauceFlagNonBlink else 0
-  let bytes := body ++ [0x1A] ++ sauceHead date (body.length + 1) ++
-      ([BinFmt.sauceDtBinaryText % 256, (p.w / 2) % 256] ++ u16le 0 ++ u16le 0 ++ [0, 0, 0, 0] ++ [0, fl] ++ info)
-  have hsave : save .bin o date p = .ok bytes := by
-    show binSave o.sauce date p = .ok bytes
-    unfold binSave writeSauce sauceFields
-    have : ¬ (p.w / 2 > 255) := by omega
-    simp only [hs, if_true, hf0, this, if_false]
-    rfl
-  obtain ⟨hext, hlen⟩ := extract_written body date info (BinFmt.sauceDtBinaryText % 256) ((p.w / 2) % 256) (0 % 256) ((0 / 256) % 256)
-    (0 % 256) ((0 / 256) % 256) 0 0 0 0 fl hd8 hdate (infoStr_length _)
-  rw [dims_bin p.w _ _ (p.ice == IceMode.ice) hev hw510] at hext
-  have hext' : extractSauce bytes = .some ⟨p.w, BinFmt.sauceDefaultH, (p.ice == IceMode.ice), 129⟩ := hext
-  have hlen' : bytes.length = body.length + 129 := hlen
-  -- the loader
-  have hbody : bytes.take (bytes.length - 129) = body := by
-    rw [hlen']
-    have e : body.length + 129 - 129 = body.length := by omega
-    rw [e]
-    show (body ++ [0x1A] ++ sauceHead date (body.length + 1) ++ _).take body.length = body
-    rw [List.append_assoc, List.append_assoc]
-    exact List.take_left' rfl
   -- what the loader decodes: every cell becomes its `shownCell`
   have hdec : ∀ r ∈ p.rows, ∀ c ∈ r,
       (⟨c.ch % 256, fromU8' (if (p.ice == IceMode.ice) then IceMode.ice else IceMode.unlimited) (asU8' p.ice c.attr)⟩ : Cell) = shownCell c := by
@@ -94,8 +51,8 @@ theorem bin_roundtrip (o : Opts) (date : List Nat) (p : Pic) (hrep : Representab
       rw [hch]
       exact dec_unl c hac hp0
   let rows' := p.rows.map fun r => r.map shownCell
-  let b0 : LBuf := { bw := p.w, bh := 25, lw := p.w, lh := 25, lines := [], ice := if (p.ice == IceMode.ice) then .ice else .unlimited,
-                     pal := dosPalette, fonts := [(0, defaultFont)] }
+  let b0 : LBuf := { bw := p.w, bh := s.height, lw := p.w, lh := s.height, lines := [], ice := if (p.ice == IceMode.ice) then .ice else .unlimited,
+                     pal := dosPalette, fonts := startFonts s, sauce := some (metaOf s) }
   have hcellsEq : ((pairsOf body).map fun q => (⟨q.1, fromU8' b0.ice q.2⟩ : Cell)) = rows'.flatten := by
     have h1 : pairsOf body = p.rows.flatten.map (fun c => (c.ch % 256, asU8' p.ice c.attr)) := by
       show pairsOf (p.rows.flatMap fun row => row.flatMap fun c => [c.ch % 256, asU8' p.ice c.attr]) = _
@@ -114,30 +71,48 @@ theorem bin_roundtrip (o : Opts) (date : List Nat) (p : Pic) (hrep : Representab
       rw [List.length_map]; exact hwid r0 hr0) (Nat.le_refl _) (Or.inl rfl)
   have hrl : rows'.length = p.h := by simp [rows', hrows]
   have hrne : rows' ≠ [] := by simp [rows', hne]
-  let g : LBuf := { b0 with lines := rows'.map (partRow p.w), lh := (p.h : Int), bh := (p.h : Int) }
-  have hload : fromBytes .bin bytes = .ok g := by
-    unfold fromBytes
-    rw [hext']
-    simp only
-    rw [hbody]
-    show binLoad body (some ⟨p.w, BinFmt.sauceDefaultH, (p.ice == IceMode.ice), 129⟩) = .ok g
-    unfold binLoad
-    rw [bin_start p.w _ (by omega) (by omega)]
-    dsimp only
-    rw [hcellsEq]
-    have hp' := hplace
-    simp only [b0, List.length_nil, List.nil_append, hrne, ne_eq, not_false_eq_true, and_true, if_true, Bool.false_eq_true,
-      false_and, if_false, hrl] at hp'
-    rw [hp']
-    simp [g, b0]
-  refine ⟨bytes, g, hsave, hload, ?_⟩
+  show binLoad body (some s) = _
+  unfold binLoad
+  have hc : (BinFmt.binClearsRows == 1) = true := by decide
+  rw [hc, start_setSauce _ _ s (by omega) (by omega), hsw, hsi]
+  dsimp only
+  rw [hcellsEq]
+  have hp' := hplace
+  simp only [b0, List.length_nil, List.nil_append, hrne, ne_eq, not_false_eq_true, and_true, if_true, Bool.false_eq_true,
+    false_and, if_false, hrl] at hp'
+  rw [hp']
+  simp [binLoaded, hsi, rows']
+
+theorem samePicture_bin (p : Pic) (s : Sauce.Sauce) (hwf : wellFormed p = true) (hsi : s.ice = (p.ice == .ice)) (hpal : p.pal = dosPalette) :
+    SamePicture .bin p (binLoaded p s) := by
+  obtain ⟨hne, hrows, hwid⟩ := rows_nonempty p hwf
   refine ⟨rfl, rfl, ?_, ?_, ?_, ?_, ?_⟩
-  · show ((rows'.map (partRow p.w)).length : Int) ≤ (p.h : Int)
-    simp [hrl]
-  · show isIce (if (p.ice == IceMode.ice) then IceMode.ice else IceMode.unlimited) = isIce p.ice
+  · show (((p.rows.map fun r => r.map shownCell).map (partRow p.w)).length : Int) ≤ (p.h : Int)
+    simp [hrows]
+  · show isIce (if s.ice then IceMode.ice else IceMode.unlimited) = isIce p.ice
+    rw [hsi]
     cases p.ice <;> rfl
-  · exact cells_of_rows p g hwf (Nat.le_refl _) rfl hpal.symm rfl
+  · exact cells_of_rows p (binLoaded p s) hwf (Nat.le_refl _) rfl hpal.symm rfl
   · intro h; exact absurd h (by decide)
   · intro h; exact absurd h (by decide)
+
+theorem bin_roundtrip (o : Opts) (date : List Nat) (p : Pic) (hrep : Representable .bin o p = true) (hdate : dateOk date = true) :
+    ∃ bytes g, save .bin o date p = .ok bytes ∧ fromBytes .bin bytes = .ok g ∧ SamePicture .bin p g := by
+  unfold Representable at hrep
+  simp only [Bool.and_eq_true, beq_iff_eq, decide_eq_true_eq] at hrep
+  obtain ⟨⟨hmeta, hwf⟩, ⟨⟨⟨⟨⟨⟨⟨hev, hw2⟩, hw510⟩, hs⟩, hcells⟩, hpal⟩, hpages⟩, hfont⟩⟩ := hrep
+  obtain ⟨f0, hf0⟩ := Option.isSome_iff_exists.mp hfont
+  let body := p.rows.flatMap fun row => row.flatMap fun c => [c.ch % 256, asU8' p.ice c.attr]
+  obtain ⟨bytes, hw, _, hfb⟩ := fromBytes_sauced .bin .bin p date body f0 hf0 hmeta (fun _ => by omega) hdate
+  obtain ⟨c1, _, c3, _⟩ := carry_bin p f0.name (bytes.length - body.length)
+  have hcw : (Sauce.carry SauceKind.bin.idx (bufInfo p f0.name) (bytes.length - body.length)).width = p.w := by rw [c1]; omega
+  refine ⟨bytes, _, ?_, ?_, samePicture_bin p _ hwf c3 hpal⟩
+  · show binSave o.sauce date p = .ok bytes
+    unfold binSave
+    have : ¬ (p.w % 2 ≠ 0) := by omega
+    simp only [this, if_false, hs, if_true]
+    exact hw
+  · rw [hfb]
+    exact bin_load p _ hwf (by omega) (by omega) hcw c3 hcells hpages
 
 end IcyVerif.BinFormats
